@@ -254,9 +254,25 @@ func stampedFromLastIndex(p *Prog, fi *FuncInfo, v ssa.Value, lastIndex *ssa.Fun
 		}
 		fa := st.Addr.(*ssa.FieldAddr)
 		base := fi.Sym(fa.X) // cloned[i] loaded
-		if base.K != KIndex || base.Args[0].V != ssa.Value(mk) && base.Args[0].Key() != fi.Sym(mk).Key() {
+		var pos *Sym
+		if base.K == KIndex && (base.Args[0].V == ssa.Value(mk) || base.Args[0].Key() == fi.Sym(mk).Key()) {
+			pos = base.Args[1]
+		} else {
+			// a local element value that is stored into cloned[j] afterwards
+			for _, in := range p.liveInstrsOf(fi.Fn) {
+				es, ok := in.(*ssa.Store)
+				if !ok || es.Val != fa.X {
+					continue
+				}
+				if ia, ok := es.Addr.(*ssa.IndexAddr); ok && ia.X == ssa.Value(mk) {
+					pos = fi.Sym(ia.Index)
+				}
+			}
+		}
+		if pos == nil {
 			continue
 		}
+		base = &Sym{K: KIndex, Args: []*Sym{fi.Sym(mk), pos}}
 		val := fi.PointeeOf(st.Val)
 		l := LinOf(val)
 		l.add(LinOf(base.Args[1]), -1) // minus the element position i
